@@ -120,6 +120,29 @@ class CliRules:
             st.sym[nm] = (-(1 << 31), (1 << 31) - 1)
             return [(st, sym(nm))]
 
+        ERRNO = ('ext', 'errno')
+
+        def m_errno_loc(I, st, fr, n, this, args, an):
+            # errno is process-wide: at the start of a parse it holds whatever the previous operation left (never written here = UNINIT)
+            if (ERRNO, ()) not in st.mem:
+                st.mem[(ERRNO, ())] = UNINIT
+            return [(st, P(ERRNO, ()))]
+
+        def m_strtol(I, st, fr, n, this, args, an):
+            nm = '$atoi%d' % n['_id']
+            st.sym[nm] = (-(1 << 63), (1 << 63) - 1)
+            endp = args[1] if len(args) > 1 else NULL
+            outs = []
+            for rangeerr in (False, True):
+                s = st.copy() if rangeerr else st
+                if endp[0] == 'p':
+                    s.mem[(endp[1], endp[2])] = ('ptop', 'strtol-end', False)
+                if rangeerr:
+                    s.mem[(ERRNO, ())] = C(34)      # ERANGE
+                    s.note((nloc(n), 'strtol: out of range'))
+                outs.append((s, sym(nm)))
+            return outs
+
         def m_vecsize(I, st, fr, n, this, args, an):
             if this is not None and this[0] == 'p' and isinstance(this[1], str) and this[1].startswith('G:'):
                 g = prog.globals.get(this[1][2:])
@@ -296,7 +319,7 @@ class CliRules:
             return r
 
         mdl.update({'getopt_long': m_getopt, 'strlog': m_strlog, 'is_valid_b64': m_valid, 'base64_to_hex': m_noop_true,
-                    'hex_to_base64': m_noop_true, 'atoi': m_atoi, 'std::vector::size': m_vecsize,
+                    'hex_to_base64': m_noop_true, 'atoi': m_atoi, '__errno_location': m_errno_loc, 'strtol': m_strtol, 'strtoul': m_strtol, 'std::vector::size': m_vecsize,
                     'std::basic_string::basic_string': m_str_ctor, 'std::operator+': m_str_plus,
                     'std::basic_string::operator=': m_str_assign, 'std::basic_string::operator+=': m_str_append, 'std::basic_string::append': m_str_append,
                     'std::basic_string::clear': m_str_clear, 'std::basic_string::c_str': m_str_cstr,
@@ -364,9 +387,11 @@ class CliRules:
             rec.broke('unmodelled construct in option parser: %s at %s' % (what, wh))
         # ---- R15.f no field of a freshly allocated parameter pack is read before it is written (it would hold whatever the heap held:
         #      in a long-lived process, the previous command line's values)
-        ur = sorted({(str(l[1][-1]) if l and l[1] else '?', w) for l, w in I.uninit_reads})
+        ur = sorted({('errno' if l and l[0] == ('ext', 'errno') else str(l[1][-1]) if l and l[1] else show(P(*l)) if l else '?', w) for l, w in I.uninit_reads})
         for fld, w in ur:
-            rec.ob('R15.f', 'R15.f@%s::read-before-write::%s' % (fkey(f), fld), False, w, 'field %s of the freshly allocated parameter pack is read before anything was stored in it' % fld)
+            rec.ob('R15.f', 'R15.f@%s::read-before-write::%s' % (fkey(f), fld), False, w,
+                   ('errno is tested without having been cleared since the parse began: it still holds what an earlier operation left' if fld == 'errno' else
+                    '%s is read before anything was stored in it since it was allocated' % fld))
         rec.ob('R15.f', 'R15.f@%s::pack-fields-written-before-read' % fkey(f), not ur, where,
                'every scalar read in the parser sees a value stored since the allocation: %s' % ('yes' if not ur else 'NO'))
         # ---- R17.a required fields per mode at every successful return
@@ -437,6 +462,13 @@ class CliRules:
             if path[0] == 'p' and path[1] == OPTARG and 'r' in mode and '+' in mode or (path[0] == 'p' and path[1] == OPTARG and 'w' in mode and False):
                 pass
         rec.count('R12.d default-output opens', ndef, 1)
+        # ---- R02.g a file opened by the parser is either read-only or created/truncated: an output that keeps old bytes beyond the
+        #      new end is not the documented file (and its tag covers the stale tail)
+        for node, mode, path, ops in L.fopen_ops:
+            ro = mode.startswith('r') and '+' not in mode
+            tr = mode.startswith('w')
+            rec.ob('R02.g', 'R02.g@%s::open-read-only-or-truncating' % fkey(f), ro or tr, nloc(node),
+                   'fopen mode "%s": %s' % (mode, 'read-only' if ro else 'creates/truncates' if tr else 'opens an existing file for writing WITHOUT truncating it'))
         # ---- R12.e verification opens no output file the user did not name
         for node, mode, path, ops in L.fopen_ops:
             if 'w' in mode or 'a' in mode or '+' in mode:
